@@ -561,7 +561,7 @@ func (fx *Fx) callByContract(st *State, key string, spec *FuncSpec, fd *FuncDecl
 	}
 	// havoc the modifies set
 	for _, m := range spec.Modifies {
-		fx.havocSpecLoc(st, callee, bind, m)
+		fx.havocSpecLocOld(st, callee, bind, m, pre)
 	}
 	// results
 	var sig *types.Signature
@@ -694,7 +694,14 @@ func (fx *Fx) specEvalVal(st *State, pkg *Pkg, bind map[string]Val, pre *State, 
 }
 
 func (fx *Fx) havocSpecLoc(st *State, pkg *Pkg, bind map[string]Val, e ast.Expr) {
+	fx.havocSpecLocOld(st, pkg, bind, e, nil)
+}
+
+func (fx *Fx) havocSpecLocOld(st *State, pkg *Pkg, bind map[string]Val, e ast.Expr, pre *State) {
 	sp := st.clone()
+	if pre != nil {
+		sp.old = pre
+	}
 	if bind != nil {
 		sp.names = map[string]types.Object{}
 		sp.bound = map[string]Val{}
@@ -712,6 +719,10 @@ func (fx *Fx) havocSpecLoc(st *State, pkg *Pkg, bind map[string]Val, e ast.Expr)
 		panic(unsupported("modifies clause is not a location: " + exprText(e)))
 	}
 	// the location was computed on a clone sharing heap terms with st; store into st
+	if p.loc.S != "" {
+		fx.store(st, p.loc, Val{T: p.loc.T, S: p.loc.S, X: fx.d.freshConst("havoc_"+sanitize(exprText(e)), p.loc.S)})
+		return
+	}
 	nv := fx.freshVal(st, "havoc_"+sanitize(exprText(e)), p.loc.T)
 	fx.store(st, p.loc, nv)
 }
